@@ -109,6 +109,10 @@ func VerifC05Value() {
 	out, err = vRender(mb+"{{- 1 }}|{{ m }}{{- s }}|"+mb+"{%- if true %}y{% endif %}", Bindings{"s": s, "m": mb})
 	want := mb + "1|" + mb
 	nd.Assert(err == nil && len(out) >= len(want) && out[:len(want)] == want && out[len(out)-len(mb)-1:] == mb+"y", "multibyte-text-survives-a-left-hyphen")
+	// hyphens directly next to a value or to a raw body have no literal text to trim: the value and
+	// the body are still emitted exactly, whatever whitespace they begin or end with
+	out, err = vRender("[{{ e -}}{{ s }}{{- e }}]{% assign a = 1 -%}{{ s }}{%- assign b = 2 %}[{{ e -}}{% raw %} \n{{x}} \t{% endraw %}{{- e }}]", Bindings{"s": s, "e": ""})
+	nd.Assert(err == nil && out == "["+s+"]"+s+"[ \n{{x}} \t]", "value-and-raw-body-untouched-by-adjacent-hyphens")
 	nd.Reach("C05.value")
 }
 
